@@ -154,6 +154,10 @@ GO_MORE = ["go/tls11/002f", "go/tls10/002f", "go/tls12/0035", "go/tls10/0035", "
            "go/tls12/c011", "go/tls11/c011", "go/tls12/c02b", "go/tls12/cca9", "go/tls12/c009", "go/tls10/c009",
            "go/tls12/c00a", "go/tls11/c00a", "go/tls12/c007", "go/tls10/c007", "go/tls10/c014", "go/tls11/c013"]
 BFE_MAIN = ["bfe/tls12/e019", "bfe/tls10/e019"]
+# SSL 3.0: no standard peer available (crypto/tls dropped it, bfe_tls's client refuses it): both ends are
+# bfe_tls record layers keyed by the package's own key schedule, no handshake (no "hsfinished" injection)
+RAW_MAIN = ["raw/ssl30/002f", "raw/ssl30/0005", "raw/ssl30/000a"]
+RAW_MORE = ["raw/ssl30/0035", "raw/ssl30/c013", "raw/ssl30/c011", "raw/ssl30/e019", "raw/tls10/002f", "raw/tls12/c02f"]
 BFE_MORE = ["bfe/tls11/e019", "bfe/tls12/c02f",
             "bfe/tls12/cca8", "bfe/tls12/c013", "bfe/tls10/c013", "bfe/tls12/0005"]
 
@@ -178,6 +182,7 @@ def rec_run(ctx, cases, label):
         raise vlib.MachineryError("no record cases (%s)" % label)
     for i, c in enumerate(cases):
         c["id"] = i + 1
+        c.setdefault("rseed", ctx.seed * 1000003 + i + 1)
     res = ctx.harness("tlsrec", ["record-run"], cases=cases, timeout=3000,
                       env={"GODEBUG": "tlsrsakex=1,tls3des=1,tls10server=1,tlsmaxrsasize=8192"})
     summ = _need(res, "record-run")
@@ -223,24 +228,26 @@ def check_c42(ctx):
     def add(combo, d, pool, num):
         pick = pool if num is None or num >= len(pool) else rnd.sample(pool, num)
         for c in pick:
+            if combo.startswith("raw/") and any(w["inj"] == "hsfinished" for w in c["wire"]):
+                continue
             cc = dict(c)
             cc["combo"] = combo + "/" + d
             cases.append(cc)
 
     if q:
-        for cb in GO_MAIN + BFE_MAIN:
+        for cb in GO_MAIN + BFE_MAIN + RAW_MAIN:
             add(cb, "c2s", singles, None)
             add(cb, "c2s", pairs, 60)
-        for cb in ["bfe/tls12/c02f", "bfe/tls10/c013", "bfe/tls11/0005", "go/tls12/c02f", "go/tls10/c013"]:
+        for cb in ["raw/ssl30/002f", "bfe/tls12/c02f", "bfe/tls10/c013", "bfe/tls11/0005", "go/tls12/c02f", "go/tls10/c013"]:
             add(cb, "s2c", singles, 40)
     else:
-        for cb in GO_MAIN + BFE_MAIN + GO_MORE + BFE_MORE:
+        for cb in GO_MAIN + BFE_MAIN + RAW_MAIN + GO_MORE + BFE_MORE + RAW_MORE:
             add(cb, "c2s", singles, None)
-        for cb in GO_MAIN + BFE_MAIN:
+        for cb in GO_MAIN + BFE_MAIN + RAW_MAIN:
             add(cb, "c2s", pairs, 1500)
-        for cb in GO_MORE + BFE_MORE:
+        for cb in GO_MORE + BFE_MORE + RAW_MORE:
             add(cb, "c2s", pairs, 150)
-        for cb in GO_MAIN + BFE_MAIN + BFE_MORE:
+        for cb in GO_MAIN + BFE_MAIN + BFE_MORE + RAW_MAIN:
             add(cb, "s2c", singles, None)
             add(cb, "s2c", pairs, 100)
     ctx.cov["rule"] = ("cases = wires enumerated by TLC from GenRecord (every single adversary action on 3 (quick) / 4 records; "
@@ -261,8 +268,74 @@ def check_c42(ctx):
 
 
 # ---------------------------------------------------------------------------------------- C45
+def msg_run(ctx, shapes, label):
+    if not shapes:
+        raise vlib.MachineryError("no message shapes (%s)" % label)
+    for i, c in enumerate(shapes):
+        c["id"] = i + 1
+    res = ctx.harness("tlsrec", ["msg-run"], cases=shapes, timeout=3000)
+    summ = _need(res, "msg-run")
+    mach = [r for r in res if "machinery" in r]
+    if mach:
+        raise vlib.MachineryError("msg-run: %d shapes could not be driven, e.g. %s" % (len(mach), mach[0]["machinery"][:800]))
+    done = {r["id"] for r in res if r.get("shape")}
+    if summ["shapes"] != len(shapes) or len(done) != len(shapes):
+        raise vlib.MachineryError("msg-run answered %d of %d shapes" % (len(done), len(shapes)))
+    if summ["evals"] == 0:
+        raise vlib.MachineryError("msg-run evaluated nothing")
+    nbad = 0
+    for r in res:
+        if "sig" in r and r.get("ok") is False:
+            nbad += 1
+            ctx.report(r["sig"], r.get("detail", "")[:1500], case={"kind": "msg", "case": r.get("case")},
+                       harness="tlsrec", cmd="msg-run")
+    ctx.cov["evaluations"] += summ["evals"]
+    ctx.cov["distinct_nontrivial"] += summ["evals"]
+    ctx.cov["constants"].setdefault("msg_run", {}).update(
+        {"shapes": len(shapes), "evaluated": summ["evals"], "not_instantiable": summ["skipped"]})
+    ctx.traces(len(shapes))
+    for c in shapes[:1] + shapes[len(shapes) // 2:len(shapes) // 2 + 1]:
+        ctx.sample({"type": c["t"], "presence": c["pres"], "nodes": [n["id"] for n in c["nodes"]],
+                    "ops": len(c["ops"]), "example_op": c["ops"][len(c["ops"]) // 2] if c["ops"] else None})
+    return nbad
+
+
 def check_c45(ctx):
-    raise vlib.MachineryError("not built yet")
+    q = ctx.tier == "quick"
+    # quick: one TLC run (GenMsg enumerates the shapes and checks the sanity invariants of the rule for
+    # every operation of each shape); thorough: additionally Msg.tla with one state per operation.
+    if not q:
+        mcd = {"MAXP": 9}
+        ctx.cov["constants"]["MC_Msg"] = {"MaxPresence": 9}
+        ctx.tlc_must_pass("Tls", "Msg", "MC_Msg.cfg", defines=mcd, timeout=3000, coverage=False, heap="6g")
+    gd = {"MAXP": 2 if q else 9}
+    ctx.cov["constants"]["Gen_Msg"] = {"MaxPresence": gd["MAXP"]}
+    r = ctx.tlc_must_pass("Tls", "GenMsg", "Gen_Msg.cfg", defines=gd, timeout=3000, count=q, heap="6g")
+    shapes = r.cases
+    for c in shapes:
+        c["ops"] = sorted(c["ops"], key=lambda o: (o["k"] != "rt", o["node"], o["w"], o["framed"]))
+        c["pres"] = sorted(c["pres"])
+        c["reps"] = 4 if q else 12
+        c["rep0"] = 0
+        c["fuzz"] = 60 if q else 400
+    ctx.cov["rule"] = ("shapes = (message type x presence vector of optional fields) enumerated by TLC with the node "
+                       "list in wire order and every operation (round trip; cut before / inside the tag / inside the "
+                       "length / after the length / inside / one byte before the end of every node, framed and raw; "
+                       "length or count +1, max, -1, 0 on every prefixed node) and its verdict accept / reject / any; "
+                       "each shape is filled with seeded contents (several variants), marshalled by the real code, "
+                       "walked along the node list, and every operation is run through the real unmarshal under "
+                       "recover on exact-capacity buffers, plus seeded random mutations (panic check only). "
+                       "evaluations = unmarshal calls judged.")
+    ctx.cov["exhaustive"] = not q
+    msg_run(ctx, shapes, "C45")
+    ctx.assumptions.append("poor fit for TLA+: TLC contributes the shape enumeration and the must-reject rule; "
+                           "round-trip equality is judged on the real structs (field by field, the package's own "
+                           "equal(), and re-marshalling)")
+    ctx.assumptions.append("gray (panic-checked only): raw cuts (header not re-framed), cuts where the grammar lets the "
+                           "message end (before the extension block, inside an unprefixed remainder), lowered lengths, "
+                           "raised lengths that do not reach the end of the message, the handshake header's own length")
+    ctx.assumptions.append("cipher-suite lists never contain 0x00ff (TLS_EMPTY_RENEGOTIATION_INFO_SCSV), which by RFC 5746 "
+                           "is parsed as secureRenegotiation=true")
 
 
 PROPS = {"C42": check_c42, "C43": check_c43, "C45": check_c45}
@@ -275,6 +348,8 @@ def replay(ctx, pid, rep):
         pad_replay(ctx, [dict(case["case"])], "replay")
     elif kind == "record":
         rec_run(ctx, [dict(case["case"])], "replay")
+    elif kind == "msg":
+        msg_run(ctx, [dict(case["case"])], "replay")
     else:
         raise vlib.MachineryError("unknown replay kind %r" % kind)
     rc = ctx.finish()
